@@ -71,19 +71,32 @@ package history
 //@   ensures[C09.clear-never-partial] !fsPartial(sh.FilePath)
 //@   ensures[C16.clear-empty] len(sh.Entries) == 0 && sh.MaxSize == old(sh.MaxSize)
 
+// occ(sh, q, n): how many of the first n entries carry the query q (recursive specification
+// function; opaque, i.e. an uninterpreted function of its arguments and of the heaps it reads,
+// with this equation as its defining axiom).
+//@ opaque func occ(sh *SearchHistory, q string, n int) int = n <= 0 ? 0 : occ(sh, q, n - 1) + (sh.Entries[n - 1].Query == q ? 1 : 0)
+
 // GetTopQueries: at most limit (default 10) rows, each a query of the history with a count of at
 // least one, ordered by count, no query twice.
 //@ func (*SearchHistory).GetTopQueries
 //@   ensures[C16.top-len] len(result) <= (limit > 0 ? limit : 10)
 //@   ensures[C16.top-from-entries] forall a int :: 0 <= a && a < len(result) ==> result[a].Count >= 1 && (exists k int :: 0 <= k && k < len(sh.Entries) && sh.Entries[k].Query == result[a].Query)
+//@   ensures[C16.top-count-exact] forall a int :: 0 <= a && a < len(result) ==> result[a].Count == occ(sh, result[a].Query, len(sh.Entries))
+//@   ensures[C16.top-distinct] forall a, b int :: 0 <= a && a < b && b < len(result) ==> result[a].Query != result[b].Query
+//@   ensures[C16.top-complete] len(result) < (limit > 0 ? limit : 10) ==> (forall k int :: 0 <= k && k < len(sh.Entries) ==> (exists a int :: 0 <= a && a < len(result) && result[a].Query == sh.Entries[k].Query))
+//@   hint[C16.top-complete] Slice forall k int :: 0 <= k && k < len(sh.Entries) ==> (exists a int :: 0 <= a && a < len(queryFreqs) && queryFreqs[a].Query == sh.Entries[k].Query)
 //@   ensures[C16.top-ordered] forall a, b int :: 0 <= a && a < b && b < len(result) ==> result[a].Count >= result[b].Count
 //@ loop 1
 //@   invariant frequency != nil && fresh(frequency) && lastSeen != nil && fresh(lastSeen) && frequency != lastSeen
 //@   invariant forall q string :: (q in frequency) <==> (exists k int :: 0 <= k && k < $i && sh.Entries[k].Query == q)
 //@   invariant forall q string :: (q in frequency) ==> frequency[q] >= 1 && frequency[q] <= $i
+//@   invariant[C16.frequency-is-occurrences] forall q string :: ((q in frequency) ==> frequency[q] == occ(sh, q, $i)) && (!(q in frequency) ==> occ(sh, q, $i) == 0)
 //@ loop 2
 //@   invariant fresh(queryFreqs) && len(queryFreqs) == $n
 //@   invariant forall a int :: 0 <= a && a < len(queryFreqs) ==> (queryFreqs[a].Query in frequency) && queryFreqs[a].Count == frequency[queryFreqs[a].Query]
+//@   invariant[C16.rows-are-visited-keys] forall a int :: 0 <= a && a < len(queryFreqs) ==> (queryFreqs[a].Query in $visited)
+//@   invariant[C16.rows-distinct] forall a, b int :: 0 <= a && a < b && b < len(queryFreqs) ==> queryFreqs[a].Query != queryFreqs[b].Query
+//@   invariant[C16.visited-keys-have-rows] forall q string :: (q in $visited) ==> (exists a int :: 0 <= a && a < len(queryFreqs) && queryFreqs[a].Query == q)
 
 // C09: the history file is replaced atomically (utils.WriteFileAtomic): it is never the target
 // of a non-atomic write, a failed save leaves it as it was and is reported.
